@@ -282,6 +282,7 @@ def step (st : St) (line : String) : St × String :=
     let stop2 := match m2.res with | .ok _ => none | .error s => some s
     ({ st with w := w4 }, s!"res={showStop stop1} str={hexOf s1} res2={showStop stop2} out2={hexOf m2.output}")
   | ["populate", d] => (st, showDecor (parseDecor d).populate)
+  | ["leftdomain", _] => (st, "leftdomain")
   | ["leftdomain"] => (st, "leftdomain")   -- marker: the case has set an input outside every property's domain
   | ["scribblerows", _] => (st, "ok")   -- the caller overwrites the slice AllRows() returned: the table keeps its own
   | ["lenobs", h] =>
